@@ -301,7 +301,9 @@ func genUciLines(t *rapid.T, maxLines int) uciLinesCase {
 			line = rapid.SampledFrom([]string{
 				"position", "position fen", "position startpos moves", "position startpos moves e2e5", "position startpos moves e2e4 e7e5 zz", "position fen 8/8/8/8/8/8/8/8 w - - 0 1",
 				"position fen rnbqkbnrr/pppppppp/8/8/8/8/PPPPPPPP/RNBQKBNR w KQkq - 0 1", "position fen 9/8/8/8/8/8/8/8 w", "position fen 4k3/8/8/8/8/8/8/4K3 w - e1 0 1",
-				"position fen 4k3/8/8/8/8/8/8/4K3 w - - x y", "position xyz", "position startpos xyz", "position startpos moves e2e4 moves e7e5",
+				"position fen 4k3/8/8/8/8/8/8/4K3 w - - x y", "position xyz",
+				// the side that has just moved is in check (a following go would capture the king); found by the thorough tier
+				"position fen r2q1rk1/pP1p2pp/Q4n2/bbp1p3/Np6/1B3NBn/pPPP1PPP/R3K2R", "position fen 8/b7/6P1/6R1/2K5/8/P7/R3kn2", "position fen 4k3/8/8/8/8/8/8/4RK2 w - - 0 1", "position startpos xyz", "position startpos moves e2e4 moves e7e5",
 				"go", "go depth", "go nodes", "go movetime", "go wtime", "go btime 100", "go winc", "go movestogo", "go mate", "go depth x", "go nodes 1e3", "go movetime -5", "go depth -1",
 				"go wtime 100 btime 100 movestogo -3", "go searchmoves", "go searchmoves e2e5", "go searchmoves zz depth 2", "go depth 2 searchmoves", "go ponder", "go infinite depth 2 nodes 100",
 				"go wtime 0 btime 0", "go nodes -1 depth 3", "go mate 2",
